@@ -21,6 +21,7 @@ class ScriptedGenerator(np.random.Generator):
         super().__init__(np.random.PCG64(seed))
         self.log: list = []
         self.scripts: dict[str, deque] = {}
+        self._nested = 0  # numpy's weighted choice() calls self.random() internally: not a draw of the code under test
 
     def script(self, method, *values):
         self.scripts.setdefault(method, deque()).extend(values)
@@ -32,6 +33,8 @@ class ScriptedGenerator(np.random.Generator):
         return False, None
 
     def random(self, size=None, *a, **k):
+        if self._nested:
+            return super().random(size, *a, **k)
         real = super().random(size, *a, **k)
         hit, v = self._take("random")
         out = v if hit else real
@@ -46,7 +49,11 @@ class ScriptedGenerator(np.random.Generator):
         return out
 
     def choice(self, a, size=None, replace=True, p=None, *args, **k):
-        real = super().choice(a, size, replace, p, *args, **k)
+        self._nested += 1
+        try:
+            real = super().choice(a, size, replace, p, *args, **k)
+        finally:
+            self._nested -= 1
         # scripts apply to weighted single choices only (the free-slot selection of a move name)
         if p is not None and size is None:
             hit, v = self._take("choice")
